@@ -16,23 +16,25 @@ PName(j) == "p" \o ToString(j)
 MName(k) == "m" \o ToString(k)
 Home(form) == IF form = "self" THEN "t" ELSE "lib"
 
+(* the macros with an odd number of parameters print them from inside a loop (a deeper scope that does not define them); *)
 (* the macros with an even number of parameters first capture what they print about them (set ... endset) and then print the
    capture: a macro may be called while its caller is itself capturing *)
 MacroDef(k, home) ==
   LET ps == [j \in 1..(2 * k) |-> IF j % 2 = 1 THEN PrintS(NameE(PName((j + 1) \div 2))) ELSE Text(",")] IN
   MacroS(MName(k), [j \in 1..k |-> PName(j)],
          <<Text(MName(k) \o "(")>>
-         \o (IF k % 2 = 0 THEN <<SetCap("held", ps), PrintS(NameE("held"))>> ELSE ps)
+         \o (IF k % 2 = 0 THEN <<SetCap("held", ps), PrintS(NameE("held"))>>
+             ELSE <<ForS("", "once", ArrE(<<IntE(1)>>), NoE, ps, <<>>, FALSE)>>)        \* read from a scope inside the macro's own
          \o <<Text(")"), PrintS(CallE("nul", <<StrE(home)>>))>>)
 CallM(form, mname, args) ==
   CASE form = "self" -> AttrCall(NameE("_self"), mname, args)
     [] form = "alias" -> AttrCall(NameE("L"), mname, args)
     [] form = "from" -> CallE(mname, args)
     [] OTHER -> CallE("x_" \o mname, args)
-(* outer(p1) calls m1(p1): through _self in the defining template, through its own import in the library *)
+(* outer(p1) calls m1(p1 ~ "+") - the two macros' parameters have the same name and different values: through _self in the defining template, through its own import in the library *)
 OuterDef(home) == MacroS("outer", <<"p1">>,
-                         IF home = "t" THEN <<Text("<"), PrintS(AttrCall(NameE("_self"), "m1", <<NameE("p1")>>)), Text(">")>>
-                         ELSE <<ImportS(StrE("lib"), "q"), Text("<"), PrintS(AttrCall(NameE("q"), "m1", <<NameE("p1")>>)), Text(">")>>)
+                         IF home = "t" THEN <<Text("<"), PrintS(AttrCall(NameE("_self"), "m1", <<Bin("~", NameE("p1"), StrE("+"))>>)), Text(">")>>
+                         ELSE <<ImportS(StrE("lib"), "q"), Text("<"), PrintS(AttrCall(NameE("q"), "m1", <<Bin("~", NameE("p1"), StrE("+"))>>)), Text(">")>>)
 Defs(home) == [k \in 1..5 |-> MacroDef(k - 1, home)] \o <<OuterDef(home)>>
 Prelude(form) ==
   CASE form = "self" -> Defs("t")
@@ -125,7 +127,7 @@ Entry(c) == IF c.host = "entry" THEN "t" ELSE "top"
 Expected(c) ==
   CASE c.special = "nested" -> "^i1(1,)i1(2,)b2(3,4,)b2(5,,)f3()f3()$"
     [] c.special = "rebind" -> "^m1(11,)n1(11,)|m1(11,)n1(11,)|m1(1,)m1(2,)n1(1,)n1(2,)m1(1,)m1(2,)$"
-    [] c.special = "outer" -> "^" \o UseExp(c, "<" \o Result(1, IF c.na >= 1 THEN 1 ELSE 0) \o ">") \o "$"
+    [] c.special = "outer" -> "^" \o UseExp(c, "<m1(" \o (IF c.na >= 1 THEN "11" ELSE "") \o "+,)>") \o "$"
     [] c.special = "unknown" -> "^"
     [] c.special = "swap" -> IF c.nest = "loop" THEN "^" \o UseExp(c, "m2(1,x,)") \o UseExp(c, "m2(2,y,)") \o "$"
                              ELSE "^" \o UseExp(c, "m2(B,A,)") \o "$"
